@@ -16,7 +16,7 @@ Classes == {"pk_ok", "pk_not_on_curve", "pk_ge_p", "pk_bad_len", "vfy_accept", "
             "R_inf", "x_mismatch", "msg_len_0", "msg_len_odd", "msg_len_long", "sig_bad_len", "vector",
             "sign_P_even_R_even", "sign_P_even_R_odd", "sign_P_odd_R_even", "sign_P_odd_R_odd", "aux_zero", "aux_ones",
             "sign_public_api", "sign_reader_fail", "from_point_odd", "from_point_even", "from_point_inf", "from_point_altrep", "from_ecdsa",
-            "self_verify"}
+            "self_verify", "immutable"}
 
 MsgClasses(m) == (IF Len(m) = 0 THEN {"msg_len_0"} ELSE {}) \cup (IF Len(m) % 32 # 0 THEN {"msg_len_odd"} ELSE {})
                  \cup (IF Len(m) > 64 THEN {"msg_len_long"} ELSE {})
@@ -33,7 +33,8 @@ VerifyClasses(pk, msg, sig, out) ==
                    ELSE {}))
 
 Verdict(ev) ==
-  CASE ev.ev = "schnorr.NewPub" ->
+  CASE ev.ev = "lib.Unexpected" -> << FALSE, {} >>                 \* a call that must succeed failed or panicked
+    [] ev.ev = "schnorr.NewPub" ->
          LET b == HB(ev["in"])  lf == IF Len(b) = W THEN LiftXEven(OS2IP(b)) ELSE <<FALSE>> IN
          << IF lf[1] THEN ev.ok /\ ev.bytes = ev["in"] /\ ev.point = EncUncompressedH(lf[2]) ELSE ~ev.ok,
             IF lf[1] THEN {"pk_ok"} ELSE IF Len(b) # W THEN {"pk_bad_len"} ELSE IF ~(OS2IP(b) \prec P) THEN {"pk_ge_p"} ELSE {"pk_not_on_curve"} >>
@@ -68,8 +69,12 @@ Verdict(ev) ==
             /\ ev.pubfromecdsa = ev.bytes /\ ev.skbytes = ev.d
             /\ PEq(PMulG(dd), XOnly(pp)) /\ (BigEq(dd, d0) \/ BigEq(dd, SNeg(d0))),            \* signing scalar consistent with the even-y point
             {"from_ecdsa"} >>
+    [] ev.ev = "schnorr.Immutable" ->     \* the caller scribbled over every slice / scalar / point handed out or passed in
+         << /\ ev.bytes2 = ev.bytes1 /\ ev.sk2 = ev.sk1 /\ ev.point2 = ev.point1 /\ ev.sig2 = ev.sig1 /\ ev.copies_ok /\ ev.verify_after
+            /\ ev.sk1 = ev.d /\ ev.bytes1 = IntToHex(PMulG(H(ev.d))[1], W),
+            {"immutable"} >>
     [] ev.ev = "schnorr.SelfVerify" ->
-         << ev.self = ev.pubverify /\ (ev.pubverify <=> VerifyB(HB(ev.pk), HB(ev.msg), HB(ev.sig))), {"self_verify"} >>
+         << ev.self = ev.pubverify /\ (ev.pubverify <=> VerifyB(HB(ev.pk), HB(ev.msg), HB(ev.sig))), {"self_verify", "immutable"} >>
 
 Init == tl = 1 /\ tBad = 0 /\ tCnt = [k \in Classes \cup {"_any"} |-> 0]
 
